@@ -7,29 +7,35 @@
    configured to cancel accepted items (CancelAcceptedOnClose: the cancel hook runs instead of the
    handler) and/or to cancel the runtime context at once (CancelRunningOnClose).
 
-   Two defects of the code as it is were found by TLC on this transcription and reproduced on the
-   real pool (see MC_f5.cfg / MC_f6.cfg and the harness scenarios):
+   Two defects were found by TLC on this transcription and reproduced on the real pool
+   (MC_f5.cfg / MC_f6.cfg and the harness scenarios):
 
-   F5  CancelRunningOnClose without CancelAcceptedOnClose: retryExecutor selects on p.ctx.Done();
-       with the executor saturated at Close the dispatcher drops the batch in hand (no handler, no
-       hook), returns false, and dispatch returns without draining the queue.
-   F6  CancelAcceptedOnClose: when submitToExecutor gives up (closed seen at the loop top or in
-       retryExecutor) it cancels the batch in hand and returns false; dispatch then returns
-       WITHOUT cancelQueued(): items still queued are neither handled nor cancelled.
-
-   FixF5 / FixF6 = TRUE model the obvious repairs (keep retrying until the executor accepts when
-   accepted work is to be drained; call cancelQueued() before giving up). *)
+   F5  (open, known-findings.json) CancelRunningOnClose without CancelAcceptedOnClose:
+       retryExecutor selects on p.ctx.Done(); with the executor saturated at Close the dispatcher
+       drops the batch in hand (no handler, no hook), returns false, and dispatch returns without
+       draining the queue.  FixF5 = FALSE is the code as it is; TRUE the candidate repair (keep
+       retrying until the executor accepts unless the Close context expired).
+   F6  (fixed by /repo commit 294b0250e) CancelAcceptedOnClose: when submitToExecutor gave up (closed
+       seen at the loop top or in retryExecutor) it cancelled the batch in hand and returned false;
+       dispatch then returned WITHOUT cancelQueued(): items still queued were neither handled nor
+       cancelled.  FixF6 = TRUE is the code as it is now (cancelQueued() before giving up);
+       FALSE the code before the fix. *)
 EXTENDS WorkQueue, TLC
 
 CONSTANTS NP, ItemsPer, QueueSize, Workers,
           MaxItems,        \* policy: BatchOptions.MaxItems (already capped by QueueSize)
           MaxWait,         \* policy: BatchOptions.MaxWait > 0
-          CancelAcceptedSet,  \* subset of BOOLEAN: cfg.CancelAcceptedOnClose (with a hook), chosen at Init
-          CancelRunningSet,   \* subset of BOOLEAN: cfg.CancelRunningOnClose, chosen at Init
+          CloseModes,      \* set of <<CancelAcceptedOnClose, CancelRunningOnClose>> pairs, one chosen at Init
           FixF5, FixF6
 
 Producers == 1..NP
 Items     == 1..(NP * ItemsPer)
+
+\* close configurations for the cfg files (CloseModes <- ...)
+ModesAll            == BOOLEAN \X BOOLEAN
+ModeCancelRunning   == {<<FALSE, TRUE>>}           \* the configuration of the still-open finding F5
+ModesButF5          == ModesAll \ ModeCancelRunning
+ModesCancelAccepted == {TRUE} \X BOOLEAN
 
 VARIABLES
   CancelAccepted, CancelRunning,   \* this instance's close options (fixed at Init)
@@ -49,7 +55,7 @@ ItemOf(p) == (p - 1) * ItemsPer + pk[p]
 Range(s)  == {s[k] : k \in 1..Len(s)}
 
 Init ==
-  /\ CancelAccepted \in CancelAcceptedSet /\ CancelRunning \in CancelRunningSet
+  /\ \E m \in CloseModes : CancelAccepted = m[1] /\ CancelRunning = m[2]
   /\ closed = FALSE /\ stop = FALSE /\ ctxc = FALSE /\ slots = 0 /\ queue = <<>>
   /\ ppc = [p \in Producers |-> "idle"] /\ pk = [p \in Producers |-> 1]
   /\ dpc = "loop" /\ dmode = "run" /\ dbatch = <<>> /\ exec = {}
